@@ -11,6 +11,8 @@ def build_module(defined_table):
     h3 = m.import_func("env", "host3", [I32, I64, F32], [I64])
     h0 = m.import_func("env", "host0", [], [I32])
     hv = m.import_func("env", "hostv", [F64, I32], [])
+    h3dup = m.import_func("env", "host3", [I32, I64, F32], [I64])      # the same host function imported a second time: still its own function index
+    m.exports.append(("rehost3", 0, h3))                               # an imported function exported again: the wrapper has the IMPORT's signature
     if not defined_table:
         m.import_table("env", "tab", 8, 8)
     gbase = m.import_global("env", "base", I32, False)
@@ -31,6 +33,7 @@ def build_module(defined_table):
     # callers (exported)
     m.func([I32, I64, F32], [I64], L(0) + L(1) + L(2) + W.ins("call", h3), export="callhost3")
     m.func([], [I32], W.ins("call", h0) + W.ins("call", h0) + W.ins("i32.sub"), export="callhost0twice")
+    m.func([I32, I64, F32], [I64], L(0) + L(1) + L(2) + W.ins("call", h3dup), export="callhost3dup")
     m.func([F64, I32], [I32], L(1) + L(0) + L(1) + W.ins("call", hv), export="callhostv")       # a value below the arguments survives
     m.func([I32, I64, F32, F64, I32], [I64], L(0) + L(1) + L(2) + L(3) + L(4) + W.ins("call", f_mix), export="callmix")
     m.func([I32, I64, F32, F64, I32], [I64], W.ins("i64.const", 5) + L(4) + L(1) + L(2) + L(3) + L(0) + W.ins("call", f_mix) + W.ins("i64.add"), export="callmixperm")
@@ -98,6 +101,16 @@ void h_callhost3(void) { ND(U32, a); ND(U64, b); ND(F32, c); ND(U32, base); U64 
     OBL(g_h_a0 == a && g_h_a1 == b && g_h_a2bits == vh_f32bits(c), "import call: arguments arrive in declaration order, bit-exact");
     OBL(r == g_h_ret, "import call: the result is delivered to the caller's operand stack");
     CANARY("callhost3"); }
+void h_callhost3dup(void) { ND(U32, a); ND(U64, b); ND(F32, c); ND(U32, base); U64 r; ASSUME(base <= 2); setup(base);
+    r = MODNAME_callhost3dup(&inst, a, b, c);
+    OBL(g_h3_calls == 1 && g_h0_calls == 0 && g_hv_calls == 0 && g_h_a0 == a && g_h_a1 == b && g_h_a2bits == vh_f32bits(c) && r == g_h_ret,
+        "import call through a SECOND import of the same host function: it has its own function index, all later indices are unaffected");
+    CANARY("callhost3dup"); }
+void h_reexport(void) { ND(U32, a); ND(U64, b); ND(F32, c); ND(U32, base); U64 r; ASSUME(base <= 2); setup(base);
+    r = MODNAME_rehost3(&inst, a, b, c);
+    OBL(g_h3_calls == 1 && g_h_inst == (void*)&inst && g_h_a0 == a && g_h_a1 == b && g_h_a2bits == vh_f32bits(c) && r == g_h_ret,
+        "re-exported import: the export wrapper has the import's own signature and passes instance, arguments and result through unchanged");
+    CANARY("reexport"); }
 void h_callhost0twice(void) { ND(U32, base); U32 r; ASSUME(base <= 2); setup(base);
     r = MODNAME_callhost0twice(&inst);
     OBL(g_h0_calls == 2 && r == g_h0_ret[0] - g_h0_ret[1], "import call: two calls in sequence, results kept in evaluation order");
@@ -156,7 +169,9 @@ def make_jobs(ctx):
         wasm_bytes = m.encode()
         d, r = ctx.translate(wasm_bytes, modname, opts)
         if d is None:
-            raise Undecided("w2c2 rejected the call probe module (%s)" % tag)
+            from ..core import rejected_job
+            jobs.append(rejected_job("G.%s.translate" % tag, modname, r, wasm_bytes.hex()))
+            continue
         text = HARNESS.replace("MODNAME", modname)
         if defined:
             # a defined table is allocated by the instance itself: sentinel filling happens after instantiation is impossible -> compare against NULL instead
@@ -165,7 +180,7 @@ def make_jobs(ctx):
         hp = os.path.join(d, "gh_%s.c" % modname)
         with open(hp, "w") as f:
             f.write(text)
-        for h, fn, extra in (("h_callhost3", "call (import)", {}), ("h_callhost0twice", "call (import)", {}), ("h_callhostv", "call (import)", {}),
+        for h, fn, extra in (("h_callhost3", "call (import)", {}), ("h_callhost0twice", "call (import)", {}), ("h_callhost3dup", "call (import, imported twice)", {}), ("h_reexport", "export wrapper of an import", {}), ("h_callhostv", "call (import)", {}),
                              ("h_callmix", "call (direct)", {}), ("h_callmixperm", "call (direct)", {}),
                              ("h_tri", "call (recursive)", dict(bounded="recursion depth <= 5 (n <= 4)")),
                              ("h_evenodd", "call (mutually recursive)", dict(bounded="recursion depth <= 5 (n <= 4)")),
